@@ -29,7 +29,7 @@ func VerifC08_Callback() {
 		verifFail("callback registration refused")
 	}
 	_ = e.k.RegisterStateCallback("oracle", func(ctx sdk.Context, id tmbytes.HexBytes, cause string) {})
-	one, w := big.NewInt(1), verifPow2(40)
+	one, w := big.NewInt(1), verifAmt(40)
 	threshold := uint32(1 + verifChoice("threshold", 2))
 	repeated := verifChoice("repeated", 2) == 1
 	scenario := verifChoice("scenario", 3)
